@@ -1267,10 +1267,16 @@ class Program:
         self.adts = {}
         self.statics = []
         self.impls = []
+        bp = os.path.join(os.path.dirname(os.path.dirname(os.path.abspath(__file__))), 'baseline_fns.json')
+        base_all = json.load(open(bp)) if os.path.exists(bp) and not os.environ.get('DES_NO_BASELINE') else None
+        loaded = []
         for fn in sorted(os.listdir(fact_dir)):
-            if not fn.endswith('.json'):
-                continue
-            d = json.load(open(os.path.join(fact_dir, fn)))
+            if fn.endswith('.json'):
+                loaded.append(json.load(open(os.path.join(fact_dir, fn))))
+        self.name_map = {'adts': {}, 'fields': {}, 'variants': {}}
+        if isinstance(base_all, dict) and base_all.get('adts'):
+            loaded, self.name_map = _normalise_names(loaded, base_all['adts'])
+        for d in loaded:
             self.crates[d['crate']] = d
             for fj in d['fns']:
                 f = Fn(fj, d['crate'])
@@ -1293,9 +1299,10 @@ class Program:
         self.inlined = []
         self.renamed = {}
         bp = os.path.join(os.path.dirname(os.path.dirname(os.path.abspath(__file__))), 'baseline_fns.json')
-        if os.path.exists(bp):
+        if os.path.exists(bp) and not os.environ.get('DES_NO_BASELINE'):
             base = json.load(open(bp))
             self.baseline_callers = base.get('callers', {}) if isinstance(base, dict) and 'fns' in base else {}
+            self.baseline_fp = base.get('fp', {}) if isinstance(base, dict) else {}
             if isinstance(base, dict) and 'fns' in base:
                 base = base['fns']
             if isinstance(base, list):
@@ -1628,6 +1635,111 @@ def _retarget_term(t, boff):
     return t
 
 
+def _normalise_names(crates, badts):
+    """Private types, fields and enum variants renamed since the pinned tree are mapped back to their pinned names, so that rules
+    (which speak about the pinned program) read a renamed program exactly as they read the original.  Detection is structural:
+      * a pinned ADT that is gone + exactly one new ADT of the same module with the same shape (kind, per variant the field types
+        in order, own name abstracted)                          -> type rename;
+      * same ADT, same number of variants/fields with the same types position by position, a name that exists on one side only
+                                                                -> field / variant rename.
+    Returns (rewritten crates, {'adts': {new: old}, 'fields': {(adt, new): old}, 'variants': {(adt, new): old}})."""
+    cur = {}
+    for d in crates:
+        for a in d['adts']:
+            cur.setdefault(strip_generics(a['path']), a)
+
+    def par(k):
+        return k.rsplit('::', 1)[0]
+
+    def shape_cur(a, own):
+        return (a.get('kind'), tuple(tuple(f['ty'].replace(own, 'Self') for f in v['fields']) for v in a.get('variants', [])))
+
+    def shape_base(a, own):
+        return (a.get('kind'), tuple(tuple(ty.replace(own, 'Self') for _, ty in v[1]) for v in a.get('variants', [])))
+    missing = [k for k in badts if k not in cur]
+    new = [k for k in cur if k not in badts]
+    cand = {}
+    for k in missing:
+        if not badts[k].get('variants') or not any(v[1] for v in badts[k]['variants']):
+            continue   # field-less types have no shape to recognise them by
+        cs = [n for n in new if par(n) == par(k) and shape_cur(cur[n], n) == shape_base(badts[k], k)]
+        if len(cs) == 1:
+            cand[k] = cs[0]
+    used = defaultdict(list)
+    for k, n in cand.items():
+        used[n].append(k)
+    adt_ren = {n: k for k, n in cand.items() if len(used[n]) == 1}
+    if adt_ren:
+        pats = [(re.compile(re.escape(n) + r'(?![A-Za-z0-9_])'), k) for n, k in sorted(adt_ren.items(), key=lambda x: -len(x[0]))]
+        out = []
+        for d in crates:
+            txt = json.dumps(d)
+            for rx, k in pats:
+                txt = rx.sub(k.replace('\\', r'\\'), txt)
+            out.append(json.loads(txt))
+        crates = out
+        cur = {}
+        for d in crates:
+            for a in d['adts']:
+                cur.setdefault(strip_generics(a['path']), a)
+                # a struct's single variant carries the struct's short name
+                for n, k in adt_ren.items():
+                    if strip_generics(a['path']) == k:
+                        for v in a.get('variants', []):
+                            if v.get('n') == n.rsplit('::', 1)[-1]:
+                                v['n'] = k.rsplit('::', 1)[-1]
+    fren, vren = {}, {}
+    for k, b in badts.items():
+        a = cur.get(k)
+        if a is None or a.get('kind') != b.get('kind') or len(a.get('variants', [])) != len(b.get('variants', [])):
+            continue
+        bv, av = b['variants'], a['variants']
+        if not all(len(x[1]) == len(y['fields']) and all(bf[1] == af['ty'] for bf, af in zip(x[1], y['fields'])) for x, y in zip(bv, av)):
+            continue
+        if a.get('kind') == 'enum':
+            bn, an = [x[0] for x in bv], [y.get('n') for y in av]
+            for o, n in zip(bn, an):
+                if o != n and o not in an and n not in bn:
+                    vren[(k, n)] = o
+        for x, y in zip(bv, av):
+            bn, an = [f[0] for f in x[1]], [f['n'] for f in y['fields']]
+            for o, n in zip(bn, an):
+                if o != n and o not in an and n not in bn and not str(o).isdigit():
+                    fren[(k, n)] = o
+    if fren or vren:
+        def rw(x):
+            if isinstance(x, list):
+                for y in x:
+                    rw(y)
+            elif isinstance(x, dict):
+                adt = x.get('adt')
+                if isinstance(adt, str):
+                    ak = strip_generics(adt)
+                    if x.get('k') == 'field' and (ak, x.get('n')) in fren:
+                        x['n'] = fren[(ak, x['n'])]
+                    if x.get('k') == 'agg' and isinstance(x.get('fields'), list):
+                        x['fields'] = [fren.get((ak, n), n) for n in x['fields']]
+                    for fld in ('v', 'variant'):
+                        if isinstance(x.get(fld), str) and (ak, x[fld]) in vren:
+                            x[fld] = vren[(ak, x[fld])]
+                    if isinstance(x.get('variants'), list):
+                        x['variants'] = [[i, vren.get((ak, n), n)] for i, n in x['variants']]
+                for v in x.values():
+                    if isinstance(v, (list, dict)):
+                        rw(v)
+        for d in crates:
+            rw(d['fns'])
+            for a in d['adts']:
+                ak = strip_generics(a['path'])
+                for v in a.get('variants', []):
+                    if (ak, v.get('n')) in vren:
+                        v['n'] = vren[(ak, v['n'])]
+                    for f in v['fields']:
+                        if (ak, f['n']) in fren:
+                            f['n'] = fren[(ak, f['n'])]
+    return crates, {'adts': adt_ren, 'fields': {'%s.%s' % k: o for k, o in fren.items()}, 'variants': {'%s::%s' % k: o for k, o in vren.items()}}
+
+
 def fn_signature(f):
     """[return type, argument types...] of a body"""
     return [f.locals[i]['ty'] for i in range(0, f.argc + 1)]
@@ -1663,6 +1775,20 @@ def apply_renames(P, base):
             cs = [f for f in new if fn_signature(f) == base[k] and parent(f.key) != parent(k) and
                   (parent(k).startswith(parent(f.key) + '::') or parent(f.key).startswith(parent(k) + '::'))]
         if not cs:
+            # an associated function moved to a sibling type / to module level of the same module (`Inner::alloc_from_region(node, ..)`
+            # -> `ListNode::fit(&self, ..)`): same full signature, still calls what the old one called, and a pinned caller of the
+            # old function calls it now
+            def module_of(key):
+                ps = key.split('::')
+                while len(ps) > 1 and (ps[-1][:1].isupper() or ps[-1].startswith('<')):
+                    ps = ps[:-1]
+                return '::'.join(ps)
+            old_callees = {c for c, callers in getattr(P, 'baseline_callers', {}).items() if k in callers and c in P.fns}
+            old_callers = set(getattr(P, 'baseline_callers', {}).get(k, []))
+            cs = [f for f in new if fn_signature(f) == base[k] and len(base[k]) > 1 and module_of(parent(f.key)) == module_of(parent(k))
+                  and old_callees <= _local_callees(P, f)
+                  and any(f.key in _local_callees(P, P.fns[c]) for c in old_callers if c in P.fns)]
+        if not cs:
             # second tier: same argument types, the return type was changed along with the name (Result<T, ()> -> Option<T> ...) —
             # only if the candidate still calls every pinned function the old one called (otherwise it is a new helper that took
             # over a *part* of the old body, and the rest went to the caller)
@@ -1671,6 +1797,49 @@ def apply_renames(P, base):
                   and old_callees <= _local_callees(P, f)]
         if len(cs) == 1:
             cand[k] = cs[0]
+    # several functions of one parent and signature renamed together (`vclone`, `vclone_panic` -> `erased_clone`, `erased_clone_unsupported`):
+    # pair them by what they call (pinned callee sets are recorded in the baseline), and by source order when that does not decide
+    fps = getattr(P, 'baseline_fp', {}) or {}
+    groups = defaultdict(list)
+    for k in missing:
+        if k not in cand:
+            groups[(parent(k), json.dumps(base[k]))].append(k)
+    for (par_k, sig), ks in groups.items():
+        cs = [f for f in new if parent(f.key) == par_k and json.dumps(fn_signature(f)) == sig]
+        if len(ks) < 2 or len(cs) != len(ks) or not all(k in fps for k in ks):
+            continue
+        def callees(f):
+            out = set()
+            for g in [f] + [h for h in P.fn_list if h.kind == 'closure' and h.root == f.key]:
+                for blk in g.blocks:
+                    t = blk['t']
+                    if t['k'] == 'call':
+                        c = strip_generics(t['res']) if t.get('res') else (strip_generics(t['callee']) if t.get('callee') else None)
+                        if c:
+                            out.add(c)
+            return out
+        cc = {f.key: callees(f) for f in cs}
+        def sim(k, f):
+            a, b = set(fps[k]['callees']), cc[f.key]
+            return len(a & b) / float(len(a | b) or 1)
+        pairing = {}
+        for k in ks:
+            sc = sorted(((sim(k, f), f.key) for f in cs), reverse=True)
+            if len(sc) > 1 and sc[0][0] == sc[1][0]:
+                pairing = None
+                break
+            pairing[k] = sc[0][1]
+        if pairing is None or len(set(pairing.values())) != len(ks):
+            # source order
+            ko = sorted(ks, key=lambda k: (fps[k]['file'], fps[k]['line']))
+            co = sorted(cs, key=lambda f: (f.file, f.line))
+            if len({fps[k]['file'] for k in ks}) == 1 and len({f.file for f in cs}) == 1:
+                pairing = {k: f.key for k, f in zip(ko, co)}
+            else:
+                pairing = None
+        if pairing:
+            for k, nk in pairing.items():
+                cand[k] = P.fns[nk]
     # one-to-one only
     used = defaultdict(list)
     for k, f in cand.items():
@@ -1915,6 +2084,13 @@ def _reach_keys(P, g, depth):
     return seen | ({g.key} if any((strip_generics(b['t'].get('res') or b['t'].get('callee') or '') == g.key) for b in g.blocks if b['t']['k'] == 'call') else set())
 
 
+def _deref_ty(s):
+    s = s.strip()
+    while s.startswith('&'):
+        s = re.sub(r"^&\s*('[a-z_]+\s+)?(mut\s+)?", '', s).strip()
+    return s
+
+
 def _inline_site(f, b, g):
     call = f.blocks[b]['t']
     loff = len(f.locals)
@@ -1924,6 +2100,13 @@ def _inline_site(f, b, g):
     for pf in g.promoted:
         f.promoted.append(pf)
     ln = call.get('ln')
+    td = g.j.get('trait_default') if isinstance(getattr(g, 'j', None), dict) else None
+    P = getattr(f, 'program', None)
+    self_adt = None
+    if td and P is not None and call.get('argtys'):
+        self_adt = strip_generics(_deref_ty(call['argtys'][0]))
+        if self_adt in ('Self', ''):
+            self_adt = None
     # callee blocks
     for gb in g.blocks:
         nb = {'s': _rename(gb['s'], loff, boff, poff), 'cleanup': gb['cleanup']}
@@ -1936,6 +2119,15 @@ def _inline_site(f, b, g):
                 t = {'k': 'goto', 't': call['t'], 'ln': ln}
             else:
                 t = {'k': 'unreachable', 'ln': ln}
+        if self_adt and t['k'] == 'call' and not t.get('res') and t.get('trait') and strip_generics(t['trait']) == strip_generics(td) \
+                and t.get('argtys') and _deref_ty(t['argtys'][0]) == 'Self':
+            # a provided trait method spliced for a known Self: sibling trait calls on `self` resolve to that type's impl
+            m = (t.get('callee') or '').split('::')[-1]
+            cands = [h for h in P.impls_of_trait_method(strip_generics(td), m) if h.self_adt and strip_generics(h.self_adt) == self_adt]
+            if len(cands) == 1:
+                t['res'] = cands[0].path
+            elif not cands and strip_generics(t.get('callee') or '') in P.fns:
+                t['res'] = t['callee']
         nb['t'] = t
         f.blocks.append(nb)
     # argument passing, then jump into the callee
